@@ -491,6 +491,16 @@ def discharge(F, s, ctxinfo):
                 for x in (c[1], c[2]):
                     if x[0] == "const" and isinstance(x[2], int) and x[2] != 0:
                         return "divisor is the non-zero constant %s" % x[2]
+                # the built-in `%` / `/` on a configured field of the receiver's enum variant: the same discharge as for the
+                # trait-call spelling (`x % &field`) below — validated > 0 wherever the variant is constructed
+                for d in (c[1], c[2]):
+                    d = unmut_all(d)
+                    if d[0] == "field" and d[1][0] == "variant" and d[1][1] == ("arg", 1):
+                        adt = b.raw.get("impl_self_adt")
+                        if adt:
+                            okp, det = positive_at_construction(F, adt, d[1][2], d[2])
+                            if okp:
+                                return "divisor %s::%s.%s is validated > 0 wherever the variant is constructed (%s)" % (adt.split("::")[-1], d[1][2], d[2], det)
             return None
         if msg == "Overflow" and op == "Add":
             a, c = args[0], args[1]
